@@ -446,6 +446,12 @@ func smokeWorker(inputPath string) {
 		os.Exit(5)
 	}
 	res := smokeResult{Ops: map[string]int{}}
+	tStart := time.Now()
+	phase := func(name string) {
+		if os.Getenv("C18_DEBUG") != "" {
+			fmt.Fprintf(os.Stderr, "phase %-12s %v\n", name, time.Since(tStart))
+		}
+	}
 	emit := func() {
 		b, _ := json.Marshal(res)
 		os.Stdout.Write(b)
@@ -500,8 +506,10 @@ func smokeWorker(inputPath string) {
 		}
 	}
 
+	phase("peers")
 	text := resolve(docText, env)
 	cut, stage, err := startManager(text)
+	phase("cut-started")
 	switch stage {
 	case "decode", "manager":
 		res.LoadError = stage + ": " + err.Error()
@@ -619,6 +627,7 @@ func smokeWorker(inputPath string) {
 			}
 		}
 	}
+	phase("traffic")
 	// give the services' goroutines a moment to chew on the garbage before stopping
 	time.Sleep(50 * time.Millisecond)
 
@@ -635,6 +644,7 @@ func smokeWorker(inputPath string) {
 	}
 	echo.tcp.Close()
 	echo.udp.Close()
+	phase("stopped")
 	emit()
 	os.Exit(0)
 }
